@@ -206,8 +206,11 @@ where
             let eval_point_opt = if com_data.commitment.is_chopped() {
                 // When the commitment is in chopped form, we require that it be evaluated
                 // in a single point.
+                // `point_indices` index the global list of points, while
+                // `point_sets[set_index]` only holds the points of this set.
                 debug_assert!(com_data.point_indices.len() == 1);
-                Some(point_sets[com_data.set_index][com_data.point_indices[0]])
+                debug_assert!(point_sets[com_data.set_index].len() == 1);
+                Some(point_sets[com_data.set_index][0])
             } else {
                 None
             };
